@@ -35,13 +35,18 @@ BodyPool ==
    \* an expression-bodied match left abnormally: its body calls a function that executes next / returns from a loop
    Set("loc2", [k |-> "match", subj |-> V("p"), bind |-> "m", body |-> Call(4, <<>>)]),
    Set("loc2", [k |-> "match", subj |-> V("p"), bind |-> "m", body |-> Call(5, <<V("m")>>)]),
-   Show("m"), Show("loc"), Show("g")}
+   Show("m"), Show("loc"), Show("g"),
+   \* a parameter that has the name of an existing global, used from a deeper frame of the same
+   \* activation (a match body): it is the parameter that is read and assigned, the global stays
+   [k |-> "matchstmt", subj |-> V("p"), bind |-> "m", b |-> Show("g")],
+   [k |-> "matchstmt", subj |-> V("p"), bind |-> "m", b |-> Set("g", V("m"))],
+   [k |-> "matchstmt", subj |-> V("g"), bind |-> "m", b |-> Block(<<Set("g", N(7)), Show("g")>>)]}
 
 MN == [k |-> "membnull"]    \* gobj.k, a member the global object does not have: passed as null, by value
 Args == CASE ArgSets = "few" -> {<<>>, <<V("a")>>, <<V("a"), N(4), N(5)>>, <<MN>>}
           [] OTHER -> {<<>>, <<V("a")>>, <<V("a"), N(4)>>, <<V("a"), N(4), N(5)>>, <<N(2)>>, <<MN>>, <<V("a"), MN>>}
-Pars == CASE ParamSets = "few" -> {<<"p">>, <<"p", "q">>}
-          [] OTHER -> {<<>>, <<"p">>, <<"p", "q">>}
+Pars == CASE ParamSets = "few" -> {<<"p">>, <<"p", "q">>, <<"p", "g">>}
+          [] OTHER -> {<<>>, <<"p">>, <<"p", "q">>, <<"p", "g">>, <<"g">>}
 
 Fn2 == [params |-> <<"p">>, body |-> Block(<<Show("p"), If(Set("x2", Call(1, <<V("p")>>))), Ret(N(4))>>)]
 Fn4 == [params |-> <<>>, body |-> Block(<<[k |-> "next"]>>)]
